@@ -5,6 +5,7 @@ import (
 	"fmt"
 	"sync"
 	"testing"
+	"time"
 
 	"github.com/agglayer/aggkit/aggsender"
 	"github.com/agglayer/aggkit/aggsender/types"
@@ -243,6 +244,101 @@ func c18Prop(rt *rapid.T, rec *ev.Recorder) {
 	}
 	if err := c18Check(c); err != nil {
 		rt.Fatalf("%v", err)
+	}
+	if rapid.IntRange(0, 3).Draw(rt, "throughRealSubscriptions") == 0 && len(c.Seq) <= 40 {
+		names := rapid.SliceOfN(rapid.SampledFrom([]string{"aggsender", "aggsender", "rpc", ""}), 1, 3).Draw(rt, "subscriberNames")
+		if err := c18CheckSubscribers(c, names); err != nil {
+			rt.Fatalf("%v", err)
+		}
+		rec.Class("cases_through_the_real_subscription_channels")
+	}
+}
+
+// c18CheckSubscribers: the same case through the notifier's own subscription mechanism (the default GenericSubscriber):
+// every subscription - whatever name it was made under - receives exactly one notification per expected epoch. Deliveries
+// are asynchronous (one goroutine per event and channel), so each channel is judged as a multiset once all blocks have
+// been handled; a notification still missing after 3 s of idleness is reported, an extra one immediately.
+func c18CheckSubscribers(c c18Case, names []string) error {
+	exp, _ := c18Expected(c)
+	bn := &c18Block{ch: make(chan types.EventNewBlock)}
+	n, err := aggsender.NewEpochNotifierPerBlock(bn, log.WithFields("module", "c18"),
+		aggsender.ConfigEpochNotifierPerBlock{StartingEpochBlock: c.Start, NumBlockPerEpoch: uint(c.N), EpochNotificationPercentage: uint(c.Pct)}, nil)
+	if err != nil {
+		return fmt.Errorf("constructor rejected valid config %+v: %v", c, err)
+	}
+	type inbox struct {
+		mu  sync.Mutex
+		got map[uint64]int
+		n   int
+	}
+	boxes := make([]*inbox, len(names))
+	stop := make(chan struct{})
+	for i, name := range names {
+		ch := n.Subscribe(name)
+		b := &inbox{got: map[uint64]int{}}
+		boxes[i] = b
+		go func() {
+			for {
+				select {
+				case e := <-ch:
+					b.mu.Lock()
+					b.got[e.Epoch]++
+					b.n++
+					b.mu.Unlock()
+				case <-stop:
+					return
+				}
+			}
+		}()
+	}
+	defer close(stop)
+	ctx, cancel := context.WithCancel(context.Background())
+	done := make(chan struct{})
+	go func() { n.Start(ctx); close(done) }()
+	for _, b := range c.Seq {
+		bn.ch <- types.EventNewBlock{BlockNumber: b}
+		bn.ch <- types.EventNewBlock{BlockNumber: b}
+	}
+	cancel()
+	<-done
+	deadline := time.Now().Add(3 * time.Second)
+	for {
+		complete := true
+		for i, b := range boxes {
+			b.mu.Lock()
+			cnt := b.n
+			var extra string
+			for _, e := range exp {
+				if b.got[e.Epoch] > 1 {
+					extra = fmt.Sprintf("epoch %d announced %d times", e.Epoch, b.got[e.Epoch])
+				}
+			}
+			if len(b.got) > len(exp) || cnt > len(exp) {
+				extra = fmt.Sprintf("%d notifications for %d expected epochs", cnt, len(exp))
+			}
+			b.mu.Unlock()
+			if extra != "" {
+				return fmt.Errorf("case %+v: subscription #%d (name %q of %q) received %s (want one per epoch of %v)", c, i, names[i], names, extra, exp)
+			}
+			if cnt < len(exp) {
+				complete = false
+			}
+		}
+		if complete {
+			return nil
+		}
+		if time.Now().After(deadline) {
+			for i, b := range boxes {
+				b.mu.Lock()
+				cnt := b.n
+				b.mu.Unlock()
+				if cnt < len(exp) {
+					return fmt.Errorf("case %+v: subscription #%d (name %q of %q) received %d of the %d notifications %v, nothing more for 3 s after the last block was handled", c, i, names[i], names, cnt, len(exp), exp)
+				}
+			}
+			return nil
+		}
+		time.Sleep(200 * time.Microsecond)
 	}
 }
 
